@@ -17,12 +17,24 @@ notes = {
  "C41": "missed first by C41 and C20; calendar-month windows added to both",
  "C42": "missed at quick (thorough caught it); single-leaf multi-value conditions under a restricted authorizer added, quick budget ×3",
  "C44": "missed first; renewal with a session handle looked up before sign-out added",
+ "C02b": "missed first; histories with small WAL segments (a roll every few writes) added",
+ "C10b": "missed at seed 1, caught at seed 2; drop → re-create → unclean restart now steered",
+ "C15b": "missed first; bulky series sets (dozens of series per tag value in one log file) added",
+ "C19b": "missed first; fault stream (failing meta commits) added",
+ "C21b": "missed first — and masked: the world set-up discarded worlds whose shard-cursor reads disagreed with the model as 'delete defect'; now a violation unless a set-up delete ran",
+ "C24b": "caught at once (dispatch/exec accounting); the settle-based 'run after release' rule was added on top",
+ "C25b": "the change is in TreeScheduler: caught by C24; C25 records the coordinator's Schedule/Release calls with a recording scheduler by design and cannot see it",
+ "C30b": "missed first; KV fault injection on a bolt store (faulted histories + retry rule) added",
+ "C43b": "missed first; KV fault injection on a bolt store added",
 }
 print("| seed (property) | change | caught by (quick tier unless noted) — first class reported | note |")
 print("|---|---|---|---|")
-for p in sorted(glob.glob("/verif/seeded/C??/meta.json")):
+import sys
+pat = "/verif/seeded/C??b/meta.json" if len(sys.argv) > 1 and sys.argv[1] == "b" else "/verif/seeded/C??/meta.json"
+for p in sorted(glob.glob(pat)):
     m = json.load(open(p))
     pid = m["property"]
+    name = m.get("name", pid)
     title = m.get("title", "").replace("|", "/")
     for pre in (pid + " seeded defect:", pid + " seed:", pid + " - seeded defect:", pid + " —", pid + " -", pid + " seeded defect"):
         if title.startswith(pre):
@@ -41,4 +53,4 @@ for p in sorted(glob.glob("/verif/seeded/C??/meta.json")):
     cell = "; ".join(det)
     if missed:
         cell += " — not by " + ", ".join(sorted(set(missed)))
-    print("| %s | %s | %s | %s |" % (pid, title or "see README", cell, notes.get(pid, "")))
+    print("| %s | %s | %s | %s |" % (name, title or "see README", cell, notes.get(name, "")))
